@@ -293,6 +293,25 @@ func runC06(c *Ctx, prop string) {
 		c.Sites++
 		c.Check(len(bad) == 0, "C07-AREA", fnName(parse), "area-iff-tag", parse.Pos(), "areas only for matched, non-empty @tag comments", strings.Join(bad, "; "))
 	}
+	if prop == "C06" {
+		// one source of annotations per field (the C07-AREA clause, as a C06 obligation of its own: with a
+		// second source the trailing comment's keys are silently lost in the first run)
+		c.Rule("C06-ONESOURCE", "annotations are read from the field's trailing comment group only: a second source (Field.Doc) gives one field two areas over the same span, and the second is applied to offsets the first has shifted — its keys are dropped", 1)
+		var bad []string
+		for _, b := range parse.Blocks {
+			for _, ins := range b.Instrs {
+				fa, ok := ins.(*ssa.FieldAddr)
+				if !ok || !isNamed(derefType(fa.X.Type()), "go/ast", "Field") {
+					continue
+				}
+				if nm := fieldAddrName(fa); nm == "Doc" {
+					bad = append(bad, "annotations are also read from the field's doc comment (Field.Doc) at "+p.Pos(fa.Pos()))
+				}
+			}
+		}
+		c.Sites++
+		c.Check(len(bad) == 0, "C06-ONESOURCE", fnName(parse), "one-source", parse.Pos(), "annotations come from Field.Comment only", strings.Join(bad, "; "))
+	}
 	// ---------------- EVERYTAG: a matched, non-empty annotation on a field with a tag literal IS injected
 	c.Rule(prop+"-EVERYTAG", "once a comment's @tag text has been found non-empty, no further test ON THE ANNOTATION TEXT decides whether the field's area is built (tests of the field's own tag literal — nil, too short to be a literal — do not look at what the annotation says)", 1)
 	{
@@ -759,6 +778,7 @@ func runAllFields(c *Ctx, rule string) {
 	var bad []string
 	for _, l := range naturalLoops(parse) {
 		what := ""
+		var ranged ssa.Value
 		for _, ins := range l.Header.Instrs {
 			bo, ok := ins.(*ssa.BinOp)
 			if !ok {
@@ -775,8 +795,10 @@ func runAllFields(c *Ctx, rule string) {
 			switch {
 			case strings.HasSuffix(sl.Elem().String(), "go/ast.Field"):
 				what = "the struct's fields"
+				ranged = ln.Call.Args[0]
 			case strings.HasSuffix(sl.Elem().String(), "go/ast.Decl"):
 				what = "the file's declarations"
+				ranged = ln.Call.Args[0]
 			}
 		}
 		if what == "" {
@@ -791,8 +813,10 @@ func runAllFields(c *Ctx, rule string) {
 						switch {
 						case strings.HasSuffix(sl.Elem().String(), "go/ast.Field") && isLoopIndex(ia.Index, l):
 							what = "the struct's fields"
+							ranged = ia.X
 						case strings.HasSuffix(sl.Elem().String(), "go/ast.Decl") && isLoopIndex(ia.Index, l):
 							what = "the file's declarations"
+							ranged = ia.X
 						}
 					}
 				}
@@ -803,6 +827,23 @@ func runAllFields(c *Ctx, rule string) {
 		}
 		n++
 		c.Sites++
+		// source order: the list walked is the syntax tree's own list (FieldList.List / File.Decls), whose
+		// order is the order of the text — the writer relies on the areas being ascending. A list assembled
+		// here (nested structs' fields appended behind their parent's later siblings, a sorted or grouped
+		// copy) yields areas out of offset order: the later ones are applied to stale offsets and dropped.
+		if ranged != nil {
+			okSrc := false
+			v := ranged
+			if u, ok := v.(*ssa.UnOp); ok && u.Op == token.MUL {
+				if fa, ok := u.X.(*ssa.FieldAddr); ok {
+					nm := fieldAddrName(fa)
+					okSrc = (nm == "List" && isNamed(derefType(fa.X.Type()), "go/ast", "FieldList")) || (nm == "Decls" && isNamed(derefType(fa.X.Type()), "go/ast", "File"))
+				}
+			}
+			if !okSrc {
+				bad = append(bad, "the loop over "+what+" walks a list assembled in this function ("+shorten(ranged.String(), 60)+" at "+p.Pos(ranged.Pos())+"), not the syntax tree's own list: the areas are no longer in ascending offset order, which the writer relies on")
+			}
+		}
 		for _, ee := range l.exitEdges() {
 			if ee[0] != l.Header {
 				bad = append(bad, "the loop over "+what+" is left from inside an iteration at "+p.Pos(instrPos(ee[0].Instrs[len(ee[0].Instrs)-1]))+": the remaining "+strings.TrimPrefix(what, "the ")+" are not processed")
